@@ -59,6 +59,8 @@ func monitorsFor(prop string) Monitors {
 		return Monitors{Page: true}
 	case "C15":
 		return Monitors{LRU: true}
+	case "C02", "C03":
+		return Monitors{Durable: true}
 	}
 	return Monitors{}
 }
